@@ -3,7 +3,7 @@
    (notes/tzfile.md, "accepted subset").  A datetime is (wall seconds since the epoch, fold);
    timedeltas and offsets are whole seconds. *)
 From Coq Require Import ZArith List Bool.
-From V Require Import tzfile.TzModel.
+From V Require Import tzfile.TzModel tzfile.TzSpec tzfile.TzData.
 Import ListNotations.
 Open Scope Z_scope.
 
@@ -64,3 +64,36 @@ Definition py_astimezone_utc (tz : tzobj) (dt : pydt) : res pydt :=
   do o <- tz_utcoffset tz dt; Ok (fst dt - o, false).
 (* utc.astimezone(tz) = tz.fromutc(utc.replace(tzinfo=tz)) *)
 Definition py_astimezone_from_utc (tz : tzobj) (dt : pydt) : res pydt := tz_fromutc tz dt.
+
+(* ------------------------------------------------------------------ round 4: __eq__ layer and the loops of _read_tzfile *)
+(* str == str *)
+Definition py_str_eqb (a b : list Z) : bool := if list_eq_dec Z.eq_dec a b then true else false.
+(* self._trans_idx as the tuple of ttinfo objects *)
+Definition py_trans_idx_objects (d : tzdata) : list ttinfo := map (nth_tt (d_tt d)) (d_idx d).
+
+(* truth value of an int-or-None *)
+Definition py_truthy_OZ (o : option Z) : bool := match o with Some x => negb (x =? 0) | None => false end.
+(* the int of an int-or-None; only evaluated where the value was just tested to be an int *)
+Definition py_oz_get (o : option Z) : Z := match o with Some x => x | None => 0 end.
+Definition E_TYPE := 7.    (* TypeError: arithmetic on None *)
+Definition py_unwrap (o : option Z) : res Z := match o with Some x => Ok x | None => Err E_TYPE end.
+(* <ttinfo object or None>.offset / .isdst, ttinfo objects being indices into the type list *)
+Definition py_ref_offset (types : list ttinfo) (o : option Z) : res Z :=
+  match o with Some k => Ok (tt_off (nth_tt types k)) | None => Err E_ATTR end.
+Definition py_ref_isdst (types : list ttinfo) (o : option Z) : res Z :=
+  match o with Some k => Ok (tt_isdst (nth_tt types k)) | None => Err E_ATTR end.
+
+(* for i in <list>: body   with `break` recorded in the state *)
+Fixpoint py_for {S : Type} (f : S -> Z -> res S) (brk : S -> bool) (l : list Z) (s : S) : res S :=
+  match l with
+  | [] => Ok s
+  | i :: r => if brk s then Ok s else do s' <- f s i; py_for f brk r s'
+  end.
+(* for i, x in enumerate(<list>): body *)
+Fixpoint py_for_enumerate {S : Type} (f : S -> Z -> Z -> res S) (l : list Z) (i : Z) (s : S) : res S :=
+  match l with
+  | [] => Ok s
+  | x :: r => do s' <- f s i x; py_for_enumerate f r (i + 1) s'
+  end.
+(* range(n - 1, -1, -1) *)
+Definition py_range_down (n : Z) : list Z := rev (seqZ 0 (Z.to_nat n)).
